@@ -630,7 +630,7 @@ def generate_numpy_like(expr: Array | Mapping[str, Array] | DictOfNamedArrays,
                       args=[],
                       posonlyargs=[],
                       kwonlyargs=[ast.arg(arg=name)
-                                  for name in cgen_mapper.arg_names],
+                                  for name in sorted(cgen_mapper.arg_names)],
                       kw_defaults=[None for _ in cgen_mapper.arg_names],
                       defaults=[]),
                   body=lines,
